@@ -116,9 +116,17 @@ def seq (pol ops : String) (impl : List String) : String :=
     s!"{if agree then "A" else "D"} {if a.spec then "S" else "V"} {if model.isEmpty then "-" else model}"
   | _, _ => "E E bad-case"
 
+/-- `conc <pol> <lookups> <updates> => <bad>`: lookups racing with host-set replacements (support only); every lookup must
+have returned a healthy element of the snapshot it took — the model of a lookup sees one (hostSet, lb) pair, so `bad = 0`. -/
+def conc (impl : List String) : String :=
+  match impl with
+  | [b] => if b == "0" then "A S 0" else "D V 0"
+  | _ => "E E bad-case"
+
 def run (caseToks impl : List String) : String :=
   match caseToks with
   | ["seq", pol, ops] => seq pol ops impl
+  | ["conc", _, _, _] => conc impl
   | _ => "E E unknown-kind"
 
 end MosnVerif.Drive.C05
